@@ -9,7 +9,6 @@ import (
 	"net/http/httptrace"
 	"net/http/httputil"
 	"net/textproto"
-	"strings"
 )
 
 // Native side: a REAL httputil.ReverseProxy over the scripted backend.
@@ -33,6 +32,19 @@ func (b *verifBrokenBody) Read(p []byte) (int, error) {
 }
 func (b *verifBrokenBody) Close() error { return nil }
 
+// verifChunkedBody delivers the body chunk by chunk (one Read each), as a streaming backend does.
+type verifChunkedBody struct{ chunks []string }
+
+func (b *verifChunkedBody) Read(p []byte) (int, error) {
+	if len(b.chunks) == 0 {
+		return 0, io.EOF
+	}
+	n := copy(p, b.chunks[0])
+	b.chunks = b.chunks[1:]
+	return n, nil
+}
+func (b *verifChunkedBody) Close() error { return nil }
+
 func (t *verifFakeRT) RoundTrip(req *http.Request) (*http.Response, error) {
 	verifHit(t.name)
 	kind, status := verifNextOutcome()
@@ -47,7 +59,7 @@ func (t *verifFakeRT) RoundTrip(req *http.Request) (*http.Response, error) {
 	h := http.Header{"Content-Type": []string{"text/plain"}}
 	switch kind {
 	case verifOutStatus:
-		return &http.Response{StatusCode: status, Header: h, Body: io.NopCloser(strings.NewReader("ok")), ContentLength: -1, Request: req, ProtoMajor: 1, ProtoMinor: 1}, nil
+		return &http.Response{StatusCode: status, Header: h, Body: &verifChunkedBody{chunks: []string{"o", "k"}}, ContentLength: -1, Request: req, ProtoMajor: 1, ProtoMinor: 1}, nil
 	case verifOutRefused:
 		return nil, errors.New("verif: connection refused")
 	default:
